@@ -1,0 +1,14 @@
+//go:build verif
+
+package tss
+
+// VerifLockHook, when set by a verification harness, is called around the party mutex:
+// "before-lock" (about to block on the mutex), "locked" (mutex held), "before-unlock" (still held).
+// It adds no synchronisation of its own.
+var VerifLockHook func(p *BaseParty, event string)
+
+func verifLockHook(p *BaseParty, event string) {
+	if h := VerifLockHook; h != nil {
+		h(p, event)
+	}
+}
